@@ -420,7 +420,7 @@ class HMixed:
 
     def __init__(self, pool=4, cap=3, ipool=3, icap=3, max_list=2, init_shapes='std', kinds=spec.ALL_KINDS,
                  rich=False, layouts=('before', 'between'), replace_variant=1, packings=('one',),
-                 meta_subsets=2, uniform_timing=None, story_L=None, nmeta=4):
+                 meta_subsets=2, uniform_timing=None, story_L=None, nmeta=4, envelope='std'):
         self.pool = gen.STORY_POOL[:pool]
         self.cap = cap
         self.ipool = gen.ITEM_POOL[:ipool]
@@ -435,6 +435,7 @@ class HMixed:
         self.init_shapes = init_shapes
         self.uniform_timing = uniform_timing
         self.nmeta = nmeta
+        self.envelope = envelope
         self._hs = HStory(pool=pool, cap=cap, max_list=story_L or max_list, kinds=kinds, packings=packings,
                           replace_variant=replace_variant)
         self._hs.story = self.story
@@ -459,7 +460,7 @@ class HMixed:
         for layout in self.layouts:
             for ids in shapes:
                 ids = [i for i in ids if i in self.pool][:self.cap]
-                out.append(gen.ro_text([self.story(i) for i in ids], layout, gen.meta_elems(self.nmeta)))
+                out.append(gen.ro_text([self.story(i) for i in ids], layout, gen.meta_elems(self.nmeta), envelope_variant=self.envelope))
         return out
 
     def menu(self, view, res):
@@ -763,6 +764,10 @@ def accessor_states(max_n=3, kinds=('dur', 'both', 'none', 'nometa'), edstarts=(
     the optional item fields (the subsets are spread over the stories/items systematically)."""
     def gen_():
         subsets = [tuple(f for i, f in enumerate(ITEM_FIELDS) if mask >> i & 1) for mask in range(32)]
+        # optional tags present but blank
+        subsets[3] = ('slug-blank', 'objID-blank')
+        subsets[10] = ('slug', 'mosID-blank', 'objType-blank', 'note-blank')
+        subsets[17] = ('slug-blank', 'note')
         ids = ('A', 'AB', 'C')
         for n in range(0, max_n + 1):
             for combo in itertools.product(kinds, repeat=n):
@@ -776,7 +781,7 @@ def accessor_states(max_n=3, kinds=('dur', 'both', 'none', 'nometa'), edstarts=(
                                 body.append(('i', gen.ITEM_POOL[j], 0, subsets[k % 32]))
                                 body.append(('p', 'round'))
                                 k += 7
-                            stories.append(gen.story_xml(sid, 0, body=tuple(body), timing=tk, slug=(k % 3 != 0)))
+                            stories.append(gen.story_xml(sid, 0, body=tuple(body), timing=tk, slug=(False if k % 3 == 0 else 'blank' if k % 5 == 0 else True)))
                         for ed in edstarts:
                             yield gen.ro_text(stories, 'before', gen.meta_elems(2, edstart=ed))
     return gen_
